@@ -20,6 +20,7 @@ import (
 	"github.com/nyaruka/goflow/envs"
 	"github.com/nyaruka/goflow/flows"
 	"github.com/nyaruka/goflow/flows/engine"
+	"github.com/nyaruka/goflow/flows/resumes"
 	"github.com/nyaruka/goflow/flows/triggers"
 	"verif/mc"
 	"verif/world"
@@ -72,7 +73,12 @@ func (s *flowSource) FlowByName(name string) (assets.Flow, error) {
 
 // NewSA builds real SessionAssets from the base assets and the given flow definitions (each a
 // complete 13.x definition with "uuid" and "name").
-func NewSA(flowDefs ...J) (flows.SessionAssets, error) {
+func NewSA(flowDefs ...J) (flows.SessionAssets, error) { return NewSAOver(nil, flowDefs...) }
+
+// NewSAOver is NewSA with a hook: over (if not nil) receives the source that serves the base assets and
+// the case's flows and returns the source the session assets are built from - a check that needs
+// other channels or templates than the fixed ones embeds the given source and overrides those types.
+func NewSAOver(over func(assets.Source) assets.Source, flowDefs ...J) (flows.SessionAssets, error) {
 	src, err := base()
 	if err != nil {
 		return nil, err
@@ -87,7 +93,11 @@ func NewSA(flowDefs ...J) (flows.SessionAssets, error) {
 		n, _ := d["name"].(string)
 		fs.flows[assets.FlowUUID(u)] = static.NewFlow(assets.FlowUUID(u), n, raw)
 	}
-	return engine.NewSessionAssets(envs.NewBuilder().Build(), fs, nil)
+	var final assets.Source = fs
+	if over != nil {
+		final = over(fs)
+	}
+	return engine.NewSessionAssets(envs.NewBuilder().Build(), final, nil)
 }
 
 // Trigger describes how a session is started.
@@ -211,6 +221,72 @@ func ExecEach(sa flows.SessionAssets, trig []byte, draw63 uint64, after func(*Ru
 			}
 			if after != nil && r.Err == nil && !after(r) {
 				return
+			}
+		}
+	})
+	r.Draws = d.hit
+	return r
+}
+
+// Step is one resume of ExecSteps. Resume is the resume as a host would send it (JSON read with
+// resumes.ReadResume: it may carry an environment and a contact). Restore says whether the host
+// serializes the session and reads it back (engine.ReadSession) before this resume - what a host
+// that keeps no session objects between calls does - or resumes the live object the previous call left.
+type Step struct {
+	Restore bool
+	Resume  []byte
+}
+
+// ExecSteps re-arms the seams, starts a session and applies the steps in order; it stops at the first
+// error. Every random draw returns DrawValue(draw63).
+func ExecSteps(sa flows.SessionAssets, trig []byte, draw63 uint64, steps []Step) *Run {
+	r := &Run{}
+	if _, err := base(); err != nil {
+		r.Err = err
+		return r
+	}
+	world.Reset()
+	d := &fixedDraw{i: draw63}
+	random.SetGenerator(rand.New(d))
+	ch := mc.NewChooser(nil)
+	h := &world.HTTPAnswers{Choose: ch.Choose}
+	httpx.SetRequestor(h)
+	r.Panic = mc.Guard(func() {
+		t, err := triggers.ReadTrigger(sa, trig, assets.IgnoreMissing)
+		if err != nil {
+			r.Err = fmt.Errorf("trigger: %w", err)
+			return
+		}
+		var sp flows.Sprint
+		r.Session, sp, r.Err = eng.NewSession(sa, t)
+		if sp != nil {
+			r.Sprints = append(r.Sprints, sp)
+		}
+		for i, st := range steps {
+			if r.Err != nil {
+				return
+			}
+			if st.Restore {
+				b, err := json.Marshal(r.Session)
+				if err != nil {
+					r.Err = fmt.Errorf("step %d: marshal session: %w", i, err)
+					return
+				}
+				s, err := eng.ReadSession(sa, b, assets.IgnoreMissing)
+				if err != nil {
+					r.Err = fmt.Errorf("step %d: read session: %w", i, err)
+					return
+				}
+				r.Session = s
+			}
+			res, err := resumes.ReadResume(sa, st.Resume, assets.IgnoreMissing)
+			if err != nil {
+				r.Err = fmt.Errorf("step %d: resume: %w", i, err)
+				return
+			}
+			sp, r.Err = r.Session.Resume(res)
+			if sp != nil {
+				r.Sprints = append(r.Sprints, sp)
 			}
 		}
 	})
